@@ -407,7 +407,25 @@ def extract_unit(u: Unit, rewrite_log: list) -> List[Piece]:
             w = find_unique(m, u.within, u.name + " (within)")
             wo = body_open(m, w)
             lo, hi = wo, match_brace(m, wo)
-        if u.anchor == "@body":
+        closure_span = None
+        if u.anchor.startswith("@closure:"):
+            # the block is the BODY OF A CLOSURE given as (last) argument of a call: the anchor text ends with the
+            # closure's parameter list (e.g. ".any(|p|"); the body runs to the parenthesis closing that call, whatever
+            # the formatting (one line, several lines, braced or not)
+            pat = u.anchor[len("@closure:"):]
+            k = find_unique(m, pat, u.name, lo, hi)
+            cp = match_brace(m, k + pat.rfind("("))
+            ca, ce = k + len(pat), cp
+            while ce > ca and src[ce - 1] in " \t\n,":
+                ce -= 1
+            while ca < ce and src[ca] in " \t\n":
+                ca += 1
+            if src[ca] == "{" and match_brace(m, ca) == ce - 1:
+                ca, ce = ca + 1, ce - 1
+            closure_span = (ca, ce)
+        if closure_span:
+            a = closure_span[0]
+        elif u.anchor == "@body":
             # the block starts at the first statement of the enclosing function: nothing can precede it
             a = lo + 1
             if src[a] == "\n":
@@ -415,7 +433,9 @@ def extract_unit(u: Unit, rewrite_log: list) -> List[Piece]:
         else:
             a = find_unique(m, u.anchor, u.name, lo, hi)
             a = src.rfind("\n", 0, a) + 1
-        if u.block_end == "@fn_end":
+        if closure_span:
+            e = closure_span[1]
+        elif u.block_end == "@fn_end":
             # the block runs to the end of the enclosing function body
             e = hi
         elif u.block_end == "@for_end":
